@@ -96,20 +96,25 @@ CHECKS.update({
         note='Trusted: hand model of _group_matching/group_tokens and of the later passes (tested against the code after every pass).',
         design='7/C09', technique='Coq proof (simulation invariant; span preservation through all passes) + correspondence'),
     'C11': dict(
-        text='Coq proofs. LETTER CASE, unbounded, every layer: C11_lex_case (ASCII re-casing: same token boundaries and types, all texts), '
-             'C11_case_split (statement boundaries), and for the grouping layer ALL 25 PASSES: C11_group_case (trees related by crel -- same '
-             'structure, classes and types, keyword leaves equal up to ASCII case -- are grouped to related trees, under the exact guard that '
-             'excludes the one case-sensitive read `value == \'AS\'` of group_functions), C11_parse_case / C11_parse_case_text (through '
-             'cur_parse), C11_get_type_case (same statement types); proved generically on the callback IR regenerated from the source '
-             '(C11g_callbacks_case_safe: all 33 boolean callbacks of the _group passes are case safe, by vm_compute over Gen/PassTab.v). '
-             'WHITESPACE: C11_lex_ws_run (a non-empty whitespace run at a token boundary lexes to one token per unit and the rest is lexed '
-             'as after a single blank), C11_multiword_fin (39 multi-word keywords x inner runs x case: finite family, bound in the statement), '
-             'C11_split (statement sequence invariant under the skeleton relation, with the exact guard), C11_group_matching (bracket '
-             'matching commutes with taking shapes). The full property is REFUTED on the unchanged tree in nine ways (nine listed '
-             'findings, with vm_compute witnesses through the model). Whitespace invariance of the generic _group driver and the ad-hoc '
-             'passes is covered by the metamorphic oracle (two renderings of one script) and the parse correspondence.',
-        note='Partial: letter case proved for every layer; whitespace proved for lexer, splitter and bracket matcher, the remaining grouping '
-             'passes by exploration. Nine known findings.',
+        text='Coq proofs. SPELLING OF KEYWORD TOKENS (ASCII letter case AND the white space inside compound keywords such as ORDER BY, '
+             'UNION ALL, END IF, CREATE OR REPLACE), unbounded, NO guard, every layer after the lexer: C11_split_pointwise_kwspell '
+             '(statement boundaries, token by token), C11_group_kwspell (ALL 25 grouping passes map related trees to related trees -- same '
+             'structure, classes and types, all leaves equal except keyword leaves, which agree after upper-casing and collapsing white '
+             'space), C11_parse_kwspell (cur_parse from related token streams, with equal get_type), and its letter-case instance from the '
+             'TEXT: C11_lex_case + C11_parse_case_text_full (ANY ASCII re-casing that touches keyword tokens only). Proved generically on '
+             'the callback IR regenerated from the source (C11g_callbacks_case_safe: every boolean callback of the _group passes reads a '
+             'keyword leaf only through Token.normalized or value.upper() == <word without white space>, by vm_compute over Gen/PassTab.v). '
+             'These statements carried the guards `value == AS`, `GO`, END IF / ORDER BY spelled with one blank until five `fix:` commits in '
+             '/repo removed the defects the guards described. WHITESPACE BETWEEN TOKENS: C11_lex_ws_run (a non-empty whitespace run at a token '
+             'boundary lexes to one token per unit and the rest is lexed as after a single blank), C11_multiword_fin (the multi-word keyword '
+             'rules x inner runs x case: one token; finite family, bound in the statement), C11_split (statement sequence invariant under '
+             'the skeleton relation; the spelling guard is derived: C11_split_guard_free; one guard left), C11_group_matching (bracket '
+             'matching commutes with taking shapes, every class). Two refutations remain (comment after a terminator; trailing comment '
+             'followed by a line break). Whitespace invariance of the generic _group driver and the ad-hoc passes is covered by the '
+             'metamorphic oracle (two renderings of one script) and the parse correspondence.',
+        note='Partial: keyword spelling proved for every layer; inter-token whitespace proved for lexer, splitter and bracket matcher, the '
+             'remaining grouping passes by exploration; compound keywords with irregular inner whitespace reach the theorem through the finite '
+             'lexer family. Two open findings, seven fixed in /repo.',
         design='7/C11', technique='Coq proof per layer (relational invariance, skeleton simulation) + refutations + metamorphic oracle'),
     'C16': dict(
         text='Coq proofs, generic in the rules and instantiated on the REGENERATED SQL_REGEX on every run: C16_criterion (every unbounded '
@@ -126,9 +131,9 @@ CHECKS.update({
              'statement for every block of the bracket language: nested BEGIN..END, IF/WHILE/FOR..END IF/END WHILE/END FOR, CASE..END, '
              'LOOP..END LOOP, inner DECLARE, parentheses, semicolons, any depth: induction over the grammar derivation with the splitter '
              'state generalised), C17_script/C17_partial (surrounding units returned separately and unchanged). The full grammar is REFUTED '
-             'in four ways (FOR..LOOP..END LOOP, CASE..END CASE, DECLARE before BEGIN, block keyword before `(`/`.`): vm_compute witnesses, '
-             'listed findings F2, F3, F12, F19.',
-        note='Partial (four listed findings). Trusted base as C05.',
+             'in five ways (FOR..LOOP..END LOOP, CASE..END CASE, DECLARE before BEGIN, block keyword before `(`/`.`, a qualified name ending '
+             'in .case): vm_compute witnesses, listed findings F2, F3, F12, F19, F38.',
+        note='Partial (five listed findings). Trusted base as C05.',
         design='7/C17', technique='Coq proof (induction over block grammar, generated table lemmas) + refutations + correspondence'),
     'C19': dict(
         text='Coq proofs: the decode ladder of Lexer.get_tokens as a total model (strict UTF-8 codec with round-trip AND injectivity proofs, '
@@ -188,13 +193,14 @@ CHECKS.update({
              'decidable class of trees; accessor totality (accessors_total: no modelled accessor raises on well-formed trees; get_window '
              'after the fix: commit); output_format filters total. '
              'Direct oracle: parse/split/format x random valid option sets x every accessor on every node. Open findings: '
-             '`(as)` IndexError in strip_whitespace, reindent_aligned ValueError, two option-validation escapes; three fixed in /repo.',
+             '`(as)` IndexError in strip_whitespace, reindent_aligned ValueError, one option-validation escape; four fixed in /repo.',
         note='Partial: filters other than the modelled ones by oracle only; recursion depth is C15.',
         design='7/C07', technique='Coq proof (totality of pipeline and of generated option validation) + correspondence + oracle'),
     'C10': dict(
         text='Exact Gallina models of StripWhitespaceFilter, SpacesAroundOperatorsFilter, SerializerUnicode and ReindentFilter (all '
              'sub-options), each validated by correspondence on the final string of sqlparse.format; theorems for ALL trees: '
-             'stripws_total + normal form (sw_nf, flat_nf under edge_ok), spaces_nf, serialize_spec, reindent own-line lemma '
+             'stripws_total + normal form (sw_nf, flat_nf under edge_ok), spaces_nf, C10_spaces_idem_tree (use_space_around_operators on its own '
+             'result changes nothing, every tree -- since the fix: commit that made it count a Newline as white space), serialize_spec, reindent own-line lemma '
              '(C10_reindent_own_line_partial) and totality on rx_safe trees. The full normal-form and fixed-point claims are REFUTED on the '
              'unchanged tree (closed vm_compute witnesses replayed on the library): five listed strip/spaces findings and three reindent '
              'findings, each with a mechanism-specific class predicate.',
@@ -213,15 +219,16 @@ CHECKS.update({
     'C18': dict(
         text='UNBOUNDED pipeline-level theorem (Props/C18b.v, Inst/C18Barrier.v): C18_barrier -- for ANY token list pre ++ (ty, kw) :: rest '
              'with pre whitespace/comments, ty DML or DDL and the decidable guard barrier_guard (the next significant token is not `::`, '
-             '`:=` or an AT TIME ZONE token; at most one `:=` token), grouping with all 25 passes succeeds and get_type() = upper(kw): every '
+             '`:=` or an AT TIME ZONE token; at most one `:=` token), grouping with all 25 passes succeeds and get_type() = Token.normalized of kw (upper-cased, inner white space collapsed): every '
              'pass preserves the invariant "the keyword leaf is a direct child of the Statement preceded only by skippable children" '
              '(generic lemma for the _group driver, per-pass instances, the matching passes via the stack-matcher specification, the scan '
              'passes); C18_barrier_lexed lifts it through cur_parse on lexer output; C18_barrier_text_partial to texts (prefix of '
              'whitespace and complete comments, any ASCII casing of every DML/DDL dictionary word, a one-unit separator, any continuation). '
              'Each conjunct of the guard is shown necessary by a closed refutation; two of them are NEW findings found by the proof '
              '(keyword before AT TIME ZONE; two `:=` with a stale index). Exact model of Statement.get_type (acc correspondence) with '
-             'get_type_keyword / _cte / _unknown_* / _total; finite families C18_pipeline_fin and C18_create_or_replace_fin; direct oracle '
-             'over all DML/DDL words x casings x prefixes x continuations (three listed findings).',
+             'get_type_keyword / _cte / _unknown_* / _total; C18_create_or_replace_token (CREATE OR REPLACE with single blanks for EVERY pair of '
+             'blank runs between the words -- refuted until the fix: commit on Token.normalized); finite families C18_pipeline_fin and '
+             'C18_create_or_replace_fin; direct oracle over all DML/DDL words x casings x prefixes x continuations (two listed findings, one fixed).',
         note='Partial: the full claim ("whatever follows") is false of the unchanged tree in the listed ways; the text-level corollary '
              'covers separators of one whitespace unit (longer runs through C18_barrier_lexed with the lexer output as hypothesis).',
         design='7/C18', technique='Coq proof (pipeline invariant through all 25 passes; get_type theorems; finite families) + acc correspondence + oracle'),
@@ -235,9 +242,10 @@ CHECKS.update({
              'corollaries for ANY length (where_extent, identifier_list_one_group: n items become ONE IdentifierList with exactly the '
              'written items; comparison_chain; typed literals); exact accessor models with get_identifiers_spec, get_parameters_spec/'
              '_partial (+ refutation: a sole non-identifier argument is dropped), get_cases_wellformed, comparison_operands; closed '
-             'finite pipeline families (C13Fin: 198 WHERE texts = conditions x followers x nesting, lists, calls, typed literals, comparisons). '
-             'Direct oracle on generated instances with known expected structure; 18 listed deviation classes (mechanism signatures).',
-        note='Partial: pipeline composition beyond the finite families by oracle + correspondence; 18 known findings.',
+             'finite pipeline families (C13Fin: 198 WHERE texts = conditions x followers x nesting, lists, calls, typed literals, comparisons; '
+             'C13_fnwords_fin: every alphabetic word of the regenerated keyword dictionaries is a function name before `(`, except the six pinned). '
+             'Direct oracle on generated instances with known expected structure; 17 listed deviation classes (mechanism signatures), one fixed.',
+        note='Partial: pipeline composition beyond the finite families by oracle + correspondence; 17 known findings.',
         design='7/C13', technique='Coq proof (pass = specification; accessor theorems; finite families) + correspondence + oracle'),
 })
 
@@ -254,9 +262,14 @@ CHECKS.update({
              'C14_nonwords_are_names (UNBOUNDED: every plain identifier of any length and casing that is in no dictionary and matches no '
              'dedicated rule lexes as one Name in every delimited context; by a sound prefix-abstract matcher a_ends + a covered-prefix '
              'search discharged by vm_compute). Refutations outside the delimited contexts (word before `(`, after/before `.`, '
-             'multi-word rules). Tied to the code by the lex correspondence and a direct oracle that recomputes the expected type '
-             'independently in Python from the compiled SQL_REGEX and the registered dictionaries.',
-        note='Non-ASCII casings and identifiers outside plain_ident are covered by the oracle only. Trusted base as C01.',
+             'multi-word rules). FROM THE TEXT (not from the opener): C14_consumes_sound (a rule r with consumes c r = false never takes c into a '
+             'match, every text), C14_quote_token_types (in the token list of EVERY text a token containing a single quote is an Error character, a '
+             'comment, a quoted name, a dollar-quoted or quoted literal or the TZCast keyword), C14_swallowers_pinned + C14_pin_tzcast (which rules '
+             'can run over a quote and where they start), and two refutations = listed findings (literal after AT TIME ZONE; comment opener '
+             'directly after an operator character). Tied to the code by the lex correspondence and a direct oracle that recomputes the '
+             'expected type independently in Python from the compiled SQL_REGEX and the registered dictionaries.',
+        note='Two listed findings about left contexts. Non-ASCII casings and identifiers outside plain_ident are covered by the oracle only. '
+             'Trusted base as C01.',
         design='7/C14', technique='Coq proof (region lemmas; finite word family lifted by case invariance; prefix-abstract matcher) + lex correspondence + oracle'),
 })
 
